@@ -123,7 +123,7 @@ def w_synth(batch):
     proc = m["processing"]
     R = hooks.REC
     res = {"cases": 0, "passes": 0, "violations": [], "samples": [], "drops": {}, "rollbacks": 0,
-           "model_agree": 0, "model_disagree": 0, "nontrivial": [], "spliced_ok": 0, "tx_total": 0,
+           "model_agree": 0, "model_disagree": 0, "nontrivial": [], "spliced_ok": 0, "tx_total": 0, "passes_with_a_raising_rule": 0,
            "ignored_kept": 0}
     for spec in batch:
         R.reset()
@@ -137,7 +137,13 @@ def w_synth(batch):
             def rule(source):
                 if source != ORIG:
                     return
-                yield from items
+                stop = (spec.get("raise_after") or {}).get(str(g))
+                for n, item in enumerate(items):
+                    if stop is not None and n == stop:
+                        raise RuntimeError("synthetic rule gives up half-way")
+                    yield item
+                if stop is not None and stop >= len(items):
+                    raise RuntimeError("synthetic rule gives up at the end")
 
             rule.__name__ = f"synthetic_rule_{g}"
             return rule
@@ -165,6 +171,8 @@ def w_synth(batch):
             tag = "+".join(why) or "none"
             res["drops"][tag] = res["drops"].get(tag, 0) + 1
         res["tx_total"] += info.get("n_tx", 0)
+        if info.get("rules_that_raised"):
+            res["passes_with_a_raising_rule"] = res.get("passes_with_a_raising_rule", 0) + 1
         if info.get("model_agreement"):
             res["model_agree"] += 1
         else:
@@ -372,8 +380,11 @@ def random_specs(n, stream):
             })
         order = list(range(nrew))
         r.shuffle(order)
-        specs.append({"source": source, "rewrites": rewrites, "order": order, "ngroups": ngroups,
-                      "api": r.choice(["fix", "chain"])})
+        spec = {"source": source, "rewrites": rewrites, "order": order, "ngroups": ngroups, "api": r.choice(["fix", "chain"])}
+        if r.random() < 0.15:  # a rule raises after it has yielded some of its rewrites (or all of them)
+            g = r.randrange(ngroups)
+            spec["raise_after"] = {str(g): r.randint(0, sum(1 for rw in rewrites if rw["group"] == g))}
+        specs.append(spec)
     return specs
 
 
@@ -476,7 +487,7 @@ def main() -> int:
                 "distinct by digest of (source, yielded rewrites). Synthetic passes use marker rewrites through "
                 "processing.fix/chain; real passes come from format_code on repository examples.",
         "samples": (tot_s.get("samples", [])[:2] + tot_r.get("samples", [])[:2]) or [{"note": "no dropped transaction sampled"}],
-        "synthetic_random": {k: tot_s.get(k) for k in ("cases", "passes", "drops", "rollbacks", "model_agree", "model_disagree", "spliced_ok", "tx_total", "ignored_kept")},
+        "synthetic_random": {k: tot_s.get(k) for k in ("cases", "passes", "drops", "rollbacks", "model_agree", "model_disagree", "spliced_ok", "tx_total", "ignored_kept", "passes_with_a_raising_rule")},
         "synthetic_enumerated": {k: tot_e.get(k) for k in ("cases", "passes", "drops", "rollbacks", "model_agree", "model_disagree", "spliced_ok", "tx_total")},
         "enumerated_space": {"configurations_total": ex_total, "configurations_run": len(ex_specs), "exhaustive_for_bound": len(ex_specs) == ex_total},
         "real_rules": {k: tot_r.get(k) for k in ("cases", "passes", "passes_with_tx", "multi_tx", "drops", "rollbacks", "model_agree", "model_disagree", "crashed")},
